@@ -43,6 +43,13 @@ CHECKS = {
    text="Seeded search over timeout values, call sequences and relative timings of Signal/Broadcast/plain waiters for the real machine.WaitTimeout (and the primitive dependency it delegates to) under testing/synctest's fake clock: lock held on return, return within 1 ms of simulated time after the timeout or after the wake-up that reaches it, no panic, bubble drains. Decides only the WaitTimeout clause; the three pure clauses (UInt64ToString, MapClear, Assume/Assert) have no schedule, clock or fault in them and are covered only by auxiliary plain assertions that no exploration count includes. One recorded finding (stale waiter after a timed-out call) is reported as KNOWN-FINDING.",
    tech="deterministic simulation of time: testing/synctest fake clock (go1.26.8), seeded timing plans vs an ideal timed-wait model",
    note="Trusted: testing/synctest's fake clock and quiescence detection; goroutine choice inside a bubble is the Go runtime's, events are placed at distinct simulated instants and exact ties are counted as inconclusive. The pure clauses of C16 are not decided by simulation."),
+ "C06": dict(cat="exploration", ref="8.8",
+   text="Seeded search over sets/orders/repetitions of co-translated packages, flag combinations, schedules of the per-package worker goroutines (yield at every function entry of the real translator and printer) and map-iteration permutations; every package's output and error list must be byte-identical to a golden translation of that package alone on the sequential schedule, in its own result slot; a -race build checks the workers for data races under the same kind of schedules; one plan in eight runs the instrumented cmd/goose binary itself (exit status, stderr, written files). Sampling, not proof.",
+   tech="deterministic simulation: seeded schedule + map-order + co-translation-set search against sequential golden output, race detector under controlled schedules"),
+ "C03": dict(cat="exploration", ref="8.9",
+   text="Both sides are simulated: seeded generated race-free concurrent Goose programs run as real Go code under the deterministic scheduler (many schedules each), and the GooseLang text that the goose built from the working tree emits for them runs on an interpreter whose threads are tasks of the same scheduler. Each Go result must be reproduced by the GooseLang program driven along Go's order of synchronisation events (else searched over random interleavings), and schedule-independent programs must return the same value on sampled complete interleavings without cell race, stuck thread or deadlock. One recorded finding (loop variable captured directly) is reported as KNOWN-FINDING.",
+   tech="deterministic simulation of both sides: seeded Go schedules, schedule transfer to a GooseLang interpreter, seeded interleaving search with vector-clock race detection",
+   note="Trusted: the glang reader/interpreter's reading of GooseLang's library semantics (DESIGN.md appendix C; Perennial is not installed), validated against the 86 semantic test functions shipped with goose; the program generator's shapes; simsync as a model of Go's sync."),
 }
 DONE = sorted(CHECKS)
 ALL = ["C%02d" % i for i in range(1, 19)]
